@@ -398,6 +398,7 @@ def matcher(f, c, out, why):
     if LIMITATION_KEY not in f.get("match", "") + f.get("what", ""):
         return False
     doc = c.meta["doc"]
+    out = c.meta.get("full", out)          # the dump with the formula section
     if doc is None or out is None or out[0] != 0:
         return False
     structs = [n for n in doc.nodes if isinstance(n, gm.StructReg)]
@@ -498,6 +499,8 @@ def main():
     fams = {}
     for i, c in enumerate(cases):
         fams.setdefault(c.meta["family"], []).append(i)
+    for c, o in zip(cases, impl):
+        c.meta["full"] = o
     for fam, idx in fams.items():
         cs = [cases[i] for i in idx]
         full = [impl[i] for i in idx]
